@@ -470,19 +470,9 @@ func c17Judge(env *Env, open func() (quickfix.MessageStore, error), before, afte
 	// further operations on the recovered store, against the model seeded with the recovered state
 	m := c17State{S: S, T: T, msgs: recovered}
 	for j := 0; j < 2; j++ {
+		// the engine gives its next message the number the recovered counter names - also when the
+		// interrupted save left a message under that very number behind (the counter was not advanced)
 		n := m.S
-		for k := range m.msgs {
-			if k >= n {
-				n = k + 1
-			}
-		}
-		if n != m.S {
-			if err := st.SetNextSenderMsgSeqNum(n); err != nil {
-				fail("C17/file/after-recovery/"+phase, "SetNextSenderMsgSeqNum(%d): %v", n, err)
-				return
-			}
-			m.S = n
-		}
 		b := []byte(fmt.Sprintf("after-recovery-%d-%d|", n, j))
 		if err := st.SaveMessageAndIncrNextSenderMsgSeqNum(n, b); err != nil {
 			fail("C17/file/after-recovery/"+phase, "SaveMessageAndIncrNextSenderMsgSeqNum(%d) on the recovered store: %v", n, err)
